@@ -1,5 +1,5 @@
 """C45 — command-line arguments reach commands unchanged (mitmproxy/command_lexer.py, command.py, types.py _StrType)."""
-import itertools, json, re
+import itertools, json, logging, re
 from common.check import PropertyCheck, Skip
 import mitmproxy.types
 from mitmproxy import command, command_lexer, exceptions
@@ -76,8 +76,25 @@ PLANS = [["x"], ["x", "x"], ["x", "x", "x"], ["x", "p", "x"], ["p", "x", "x"], [
 
 
 class _Master:
-    """the part of a master the console's CommandBuffer uses"""
+    """the part of a master the console's CommandBuffer / CommandExecutor / Keymap use"""
     def __init__(self, cm): self.commands = cm
+    def overlay(self, *a, **kw): raise AssertionError("test commands return nothing")
+
+
+class _LogCapture(logging.Handler):
+    """CommandExecutor reports a CommandError through logging.error: collect the messages"""
+    def __init__(self):
+        super().__init__(logging.ERROR); self.msgs = []
+    def emit(self, record): self.msgs.append(record.getMessage())
+
+
+_LOG = _LogCapture()
+logging.getLogger().addHandler(_LOG)
+# every character str.isspace() accepts in this interpreter, and the C0 / DEL / C1 control characters
+ISSPACE = [chr(c) for c in range(0x110000) if chr(c).isspace()]
+CONTROLS = [chr(c) for c in list(range(0x20)) + list(range(0x7f, 0xa0))]
+EDGE = sorted(set(ISSPACE + CONTROLS))
+ROUTES = ["m", "e", "k"]      # CommandManager.execute | the console's CommandExecutor (prompt) | a key binding through the real Keymap
 
 
 
@@ -221,6 +238,10 @@ class Check(PropertyCheck):
 
     # ------------------------------------------------------------------ generator
     def _rand(self, rng, lo=0, hi=8):
+        if rng.chance(0.15):
+            # begins / ends with / consists of whitespace of any script or a control character
+            c, mid = rng.pick(EDGE), self._rand(rng, 0, 3)
+            return rng.pick([c, mid + c, c + mid, c + mid + rng.pick(EDGE), mid + c + c])
         r = rng.random()
         if r < 0.12: return rng.pick(WRAPPED)
         if r < 0.22:
@@ -248,6 +269,11 @@ class Check(PropertyCheck):
         if tier == "thorough":
             for t in itertools.product(SMALL, repeat=4):
                 yield {"k": "raw", "ty": "v", "line": "t.v " + "".join(t)}
+        # every whitespace / control character at the edges of the LAST (and only) argument, on every execution route
+        for c in EDGE:
+            for route in ROUTES:
+                for ty, args in (("v", [c]), ("s", ["100" + c]), ("v", [c + "a"]), ("two", ["a", "b" + c]), ("mix", ["a", c]), ("one", [c + c])):
+                    yield {"k": "args", "ty": ty, "args": args, "route": route}
         for key, (pos, rest) in SIGS.items():
             for n in range(0, len(pos) + 3):
                 for w in ("a", "a b", "'\"", "C:\\new", ""):
@@ -256,13 +282,14 @@ class Check(PropertyCheck):
             ty = rng.weighted([(5, "s"), (5, "v"), (2, "one"), (3, "two"), (3, "mix"), (1, "none")])
             r = rng.random()
             plan = rng.pick(PLANS)
+            route = rng.pick(ROUTES)
             if r < 0.6:
                 pos, rest = SIGS[ty]
                 n = rng.randint(0, 3) if rng.chance(0.1) else len(pos) + (rng.randint(0 if pos else 1, 2) if rest else 0)
-                yield {"k": "args", "ty": ty, "args": [self._rand(rng) for _ in range(n)], "plan": plan}
+                yield {"k": "args", "ty": ty, "args": [self._rand(rng) for _ in range(n)], "plan": plan, "route": route}
             else:
                 pre = rng.pick(["t.%s ", " t.%s  ", '"t.%s" ', "'t.%s'\t", "t.%s", "t.%s\n"]) % ty
-                yield {"k": "raw", "ty": ty, "line": pre + self._rand(rng, 0, 12), "plan": plan}
+                yield {"k": "raw", "ty": ty, "line": pre + self._rand(rng, 0, 12), "plan": plan, "route": route}
 
     # ------------------------------------------------------------------ implementation
     def impl(self, case):
@@ -291,22 +318,37 @@ class Check(PropertyCheck):
                 cb.cycle_completion(step == "t"); cb.render()
                 cb.cycle_completion(step == "t"); cb.render()
             else:
-                execs.append(self._exec(cm, sink, line))
+                execs.append(self._exec(cm, sink, line, case.get("route", "m")))
         toks = list(command_lexer.expr.parse_string(line, parse_all=True))
         return {"line": line, "exec": execs[0], "execs": execs, "quoted": quoted, "tokens": toks}
 
     @staticmethod
-    def _exec(cm, sink, line):
+    def _classify_error(m):
+        if m.startswith("Invalid command"): return ["nocmd"]
+        if m.startswith("Command argument mismatch"): return ["arity"]
+        if m.startswith("Unknown command"): return ["unknown"]
+        return ["badarg"]
+
+    def _exec(self, cm, sink, line, route="m"):
         sink.got = None
-        try:
-            cm.execute(line)
-            return ["call", sink.got[0], sink.got[1]]
-        except exceptions.CommandError as e:
-            m = str(e)
-            if m.startswith("Invalid command"): return ["nocmd"]
-            if m.startswith("Command argument mismatch"): return ["arity"]
-            if m.startswith("Unknown command"): return ["unknown"]
-            return ["badarg"]
+        if route == "m":
+            try:
+                cm.execute(line)
+                return ["call", sink.got[0], sink.got[1]]
+            except exceptions.CommandError as e:
+                return self._classify_error(str(e))
+        # the console's own ways of running a command line: errors are logged, not raised
+        from mitmproxy.tools.console import commandexecutor, keymap
+        del _LOG.msgs[:]
+        if route == "e":
+            commandexecutor.CommandExecutor(_Master(cm))(line)
+        else:
+            km = keymap.Keymap(_Master(cm))
+            km.add("f5", line, ["global"])
+            assert km.handle("flowlist", "f5") is None
+        if sink.got is not None: return ["call", sink.got[0], sink.got[1]]
+        if _LOG.msgs: return self._classify_error(_LOG.msgs[-1])
+        return ["nocmd"]          # a blank line: nothing is run
 
     # ------------------------------------------------------------------ the property on the implementation
     def oracle(self, case, obs):
@@ -475,12 +517,12 @@ class Check(PropertyCheck):
         return firsts + [enc(q) for q in obs["quoted"]] + [" ".join([str(len(obs["tokens"]))] + [enc(t) for t in obs["tokens"]])]
 
     def classify(self, case, obs):
-        plan = "".join(case.get("plan", ["x"]))
+        plan = "".join(case.get("plan", ["x"])) + "/" + case.get("route", "m")
         if case["k"] == "args": return ("a", case["ty"], tuple(case["args"]), plan)
         return ("r", case["ty"], case["line"], plan) if case["line"].strip(WS) else None
 
     def branches(self, case, obs):
-        out = ["%s:%s:%s" % (case["k"], case["ty"], obs["exec"][0]), "plan:" + "".join(case.get("plan", ["x"]))]
+        out = ["%s:%s:%s" % (case["k"], case["ty"], obs["exec"][0]), "plan:" + "".join(case.get("plan", ["x"])), "route:" + case.get("route", "m")]
         if any(len(a) > 1 and a[0] in "'\"" and a[-1] == a[0] for a in case.get("args", [])): out.append("arg-wrapped-in-quotes")
         if case["k"] == "args":
             for a, q in zip(case["args"], obs["quoted"]):
